@@ -281,15 +281,16 @@ Variables X Y : IPS.
 Variable A : LinOp X Y.
 
 Notation st := (@cgnst R X Y).
-Variable eps2 : R.
-Definition CGNinit (b : Y) (x : X) : st := cgn_init X Y inner vplus smul A (adj A) eps2 b x.
-Definition CGNstep (s : st) : option st := cgn_step X Y vplus smul inner vplus smul inner A (adj A) s.
+Variables eps2 epsm : R.
+Hypothesis Hepsm : 0 <= epsm.
+Definition CGNinit (b : Y) (x : X) : st := cgn_init X Y inner vplus smul inner A (adj A) eps2 b x.
+Definition CGNstep (s : st) : option st := cgn_step X Y vplus smul inner vplus smul inner A (adj A) epsm s.
 Definition CGNrun (b : Y) (x : X) (n : nat) : list st :=
-  cgn_run X Y vplus smul inner vplus smul inner A (adj A) eps2 b x n.
+  cgn_run X Y vplus smul inner vplus smul inner A (adj A) eps2 epsm b x n.
 
 Definition cgn_inv (b : Y) (s : st) : Prop :=
   n_d X Y s = b -' A (n_x X Y s) /\ n_s X Y s = adj A (n_d X Y s) /\
-  n_ss X Y s = nsq (n_s X Y s) /\ <<n_s X Y s, n_p X Y s>> = nsq (n_s X Y s).
+  n_ss X Y s = nsq (n_s X Y s) /\ <<n_s X Y s, n_p X Y s>> = nsq (n_s X Y s) /\ n_dd X Y s = nsq (n_d X Y s).
 
 Lemma cgn_init_inv b x : cgn_inv b (CGNinit b x).
 Proof. unfold cgn_inv, CGNinit, cgn_init; cbn. repeat split; reflexivity. Qed.
@@ -299,13 +300,24 @@ Lemma cgn_step_spec b s s' :
   cgn_inv b s' /\ 0 < nsq (A (n_p X Y s)) /\
   nsq (n_d X Y s') = nsq (n_d X Y s) - n_ss X Y s * n_ss X Y s / nsq (A (n_p X Y s)).
 Proof.
-  intros (Hd & Hs & Hss & Hsp). unfold CGNstep, cgn_step. numR.
-  destruct s as [x d p s ss stp]; cbn [n_x n_d n_p n_s n_ss n_stop] in *.
+  intros (Hd & Hs & Hss & Hsp & Hdd). unfold CGNstep, cgn_step. numR.
+  destruct s as [x d p s ss stp dd]; cbn [n_x n_d n_p n_s n_ss n_stop n_dd] in *.
   destruct (Rleb ss stp); [discriminate|].
   fold (nsq (A p)).
   destruct (Reqb_spec (nsq (A p)) 0) as [|Hqq]; [discriminate|].
-  intros E; injection E as <-. cbn [n_x n_d n_p n_s n_ss n_stop].
   set (qq := nsq (A p)) in *. set (a := ss / qq).
+  assert (Hqq0' : 0 < qq) by (pose proof (nsq_pos Y (A p)) as Hq; fold qq in Hq; lra).
+  assert (Hdq' : <<d, A p>> = ss).
+  { rewrite inner_sym, adj_eq, <- Hs, inner_sym, Hsp, <- Hss. reflexivity. }
+  assert (Hres' : nsq (d +' (- a) *' A p) = nsq d - ss * ss / qq).
+  { rewrite nsq_add_scal, Hdq'. fold qq. unfold a. field. lra. }
+  fold (nsq (d +' (- a) *' A p)).
+  (* the guard of fix b290190 never fires in exact arithmetic *)
+  destruct (Rltb_spec (dd * (1 + 100 * epsm)) (nsq (d +' - a *' A p))) as [Hfire|_].
+  { exfalso. rewrite Hres', Hdd in Hfire. pose proof (nsq_pos Y d) as Hd0.
+    assert (0 <= ss * ss / qq) by (apply Rmult_le_pos; [nra | left; apply Rinv_0_lt_compat; auto]).
+    nra. }
+  intros E; injection E as <-. cbn [n_x n_d n_p n_s n_ss n_stop n_dd].
   assert (Hqq0 : 0 < qq) by (pose proof (nsq_pos Y (A p)); fold qq in H; lra).
   assert (Hdq : <<d, A p>> = ss).
   { rewrite inner_sym, adj_eq, <- Hs, inner_sym, Hsp, <- Hss. reflexivity. }
@@ -315,17 +327,38 @@ Proof.
   assert (Hres : nsq (d +' (- a) *' A p) = nsq d - ss * ss / qq).
   { rewrite nsq_add_scal, Hdq. fold qq. unfold a. field. lra. }
   set (s' := adj A (d +' (- a) *' A p)) in *.
-  unfold cgn_inv; cbn [n_x n_d n_p n_s n_ss n_stop].
+  unfold cgn_inv; cbn [n_x n_d n_p n_s n_ss n_stop n_dd].
   repeat split; auto.
   - rewrite Hd; vec_eq'.
   - rewrite inner_add_r, inner_scal_r, Hz. unfold nsq. ring.
+Qed.
+
+(* the guard added by fix b290190 (`sqnorm_d_new > sqnorm_d_old * (1 + 100 eps)`: undo the step and return)
+   never fires in exact arithmetic: the residual of the trial step is <= the old one *)
+Lemma cgn_guard_never_fires_exact b (s : st) :
+  cgn_inv b s -> nsq (A (n_p X Y s)) <> 0 ->
+  Rltb (n_dd X Y s * (1 + 100 * epsm))
+       (nsq (n_d X Y s +' (- (n_ss X Y s / nsq (A (n_p X Y s)))) *' A (n_p X Y s))) = false.
+Proof.
+  intros (Hd & Hs & Hss & Hsp & Hdd) Hq.
+  destruct s as [x d p s ss stp dd]; cbn [n_x n_d n_p n_s n_ss n_stop n_dd] in *.
+  set (qq := nsq (A p)) in *.
+  assert (Hqq0 : 0 < qq) by (pose proof (nsq_pos Y (A p)) as H0; fold qq in H0; lra).
+  assert (Hdq : <<d, A p>> = ss).
+  { rewrite inner_sym, adj_eq, <- Hs, inner_sym, Hsp, <- Hss. reflexivity. }
+  assert (Hres : nsq (d +' (- (ss / qq)) *' A p) = nsq d - ss * ss / qq).
+  { rewrite nsq_add_scal, Hdq. fold qq. field. lra. }
+  destruct (Rltb_spec (dd * (1 + 100 * epsm)) (nsq (d +' - (ss / qq) *' A p))) as [Hfire|]; [exfalso|reflexivity].
+  rewrite Hres, Hdd in Hfire. pose proof (nsq_pos Y d) as Hd0.
+  assert (0 <= ss * ss / qq) by (apply Rmult_le_pos; [nra | left; apply Rinv_0_lt_compat; auto]).
+  nra.
 Qed.
 
 Theorem cgn_residual_all b x n :
   nonincr (fun s => nsq (b -' A (n_x X Y s))) (CGNinit b x) (CGNrun b x n).
 Proof.
   unfold CGNrun, cgn_run. fold (CGNinit b x).
-  apply (otrace_nonincr (cgn_step X Y vplus smul inner vplus smul inner A (adj A)) (cgn_inv b)).
+  apply (otrace_nonincr (cgn_step X Y vplus smul inner vplus smul inner A (adj A) epsm) (cgn_inv b)).
   - intros s s' Hi E. destruct (cgn_step_spec b s s' Hi E) as (Hi' & Hqq & HE).
     split; auto. destruct Hi as (Hd & _), Hi' as (Hd' & _). rewrite <- Hd, <- Hd', HE.
     assert (0 <= n_ss X Y s * n_ss X Y s / nsq (A (n_p X Y s))).
